@@ -1230,8 +1230,11 @@ func (s *ShapeIndex) makeIndexCell(p *PaddedCell, edges []*clippedEdge, t *track
 	for i := 0; i < numShapes; i++ {
 		var clipped *clippedShape
 		// advance to next value base + i
-		eshapeID := int32(s.Len())
-		cshapeID := eshapeID // Sentinels
+		// Sentinels: larger than every shape id in use. (Not Len(): shape ids
+		// are never reused, so after a Remove the largest id still in use can
+		// be greater than or equal to the number of shapes.)
+		eshapeID := s.nextID
+		cshapeID := eshapeID
 
 		if eNext != len(edges) {
 			eshapeID = edges[eNext].faceEdge.shapeID
